@@ -20,7 +20,7 @@ from qq import quote_sites, QUOTE_MACROS
 
 RULES = RuleSet("C02", "§3 C02 / C04 / C05",
                 not_decided=["equality of sizes / alignments / offsets with what clang computes (a relation to runtime numbers)",
-                             "the padding arithmetic of StructLayoutTracker (saw_field_with_layout, pad_struct, add_tail_padding)",
+                             "that StructLayoutTracker places every padding field where C has a hole (R2.4, R2.10-R2.12 and R12.16 decide necessary parts: what is added to the offset, alignment of a padding field, no double tail padding, no wrapping subtraction)",
                              "bit-field allocation-unit layout (C03 covers the accessors)",
                              "alignment of u128 / f64 on the Rust side for a given target (rustc's data layout)",
                              "that the oracle table itself matches the C standard / libclang / the Rust reference (it is reviewed, not derived)"])
